@@ -595,15 +595,27 @@ class HintTreeCode(HintTreeABC):
             # Metadata encapsulating the previously enqueued root hint.
             root_hint_meta = self._hint_queue[0]
 
-            # This root hint.
-            root_hint = root_hint_meta.hint_sane.hint
+            # Metadata encapsulating the sanified root hint if the root hint
+            # has yet to be fully visited *OR* a sentinel placeholder otherwise
+            # (i.e., if the breadth-first search has already visited and thus
+            # deinitialized this metadata, as is the case for deeply rather
+            # than widely nested hints).
+            root_hint_sane = root_hint_meta.hint_sane
+
+            # Machine-readable representation of this root hint if still
+            # available *OR* a human-readable placeholder otherwise.
+            root_hint_repr = (
+                repr(root_hint_sane.hint)
+                if isinstance(root_hint_sane, HintSane) else
+                '(already visited)'
+            )
 
             # Raise an exception embedding this root hint.
             raise BeartypeDecorHintRecursionException(
                 f'{self.exception_prefix}child type hint {repr(hint_child)} '
                 f'non-type-checkable. '
                 f'Recursion detected when generating code type-checking from '
-                f'root type hint {repr(root_hint)} to this child type hint. '
+                f'root type hint {root_hint_repr} to this child type hint. '
                 f'Please submit this exception traceback as a new issue '
                 f'to our friendly issue tracker:\n'
                 f'\t{URL_ISSUES}\n'
